@@ -750,6 +750,10 @@ FIXED = [
     ("program p\nend program q\n", "main-name"),
     ("program p\nif (x) then\nend if\nend program p\nsubroutine s\nend\n", "two-units"),
     ("subroutine a\nend\nsubroutine a\nx = = 1\nend\n", "reuse-top"),
+    ("block data\nend block data bd\n", "unnamed-start"),
+    ("module m\ncontains\nsubroutine s\nblock data\nend block data bd\nend subroutine s\nend module m\n",
+     "unnamed-start-nested"),
+    ("subroutine a\nend subroutine a\n@@garbage\n", "table-left"),
 ]
 
 
